@@ -197,7 +197,7 @@ class C13(F.PropCheck):
         l = L(); evs = [self.env_event()]; tags = []
         D = ('DUMP', [], b''); r0 = lambda: rng.randrange(256)
         def boot(): return [('INIT', [r0()], b''), D]
-        sc = rng.choice(['roundtrip', 'roundtrip', 'faults', 'faults', 'faults', 'migrate', 'migrate', 'foreign', 'foreign', 'factory', 'post', 'mixed'])
+        sc = rng.choice(['roundtrip', 'roundtrip', 'faults', 'faults', 'faults', 'migrate', 'migrate', 'foreign', 'foreign', 'factory', 'post', 'mixed', 'resave', 'resave'])
         tags.append(sc)
         state_img = rb(rng, l['STATE_SIZE']) if rng.random() < 0.8 else None
         def start_v7(clean=False):
@@ -224,6 +224,32 @@ class C13(F.PropCheck):
                 if rng.random() < 0.25 and sc != 'roundtrip': evs += self.fault(rng, 2)
                 evs += boot()
                 if rng.random() < 0.3: evs += [('TIMER', [], b''), D]
+        elif sc == 'resave':
+            # fault SEQUENCES with repeated identical saves: a save fails at its erase or its write (ERR/TIMEOUT; no power loss, the
+            # device stays up), the same record is saved again with a healthy flash (nothing reloaded in between), restart, load
+            evs += start_v7()
+            for cyc in range(rng.randrange(1, 3)):
+                S = rb(rng, l['STATE_SIZE'])
+                if rng.random() < 0.8: evs += [('SETSTATE', [], S)]
+                if rng.random() < 0.5: evs += [('SETCFG', [], img_v7(rng))]
+                def save_state():
+                    if rng.random() < 0.6: return [('SAVESTATE', [0], b'')]
+                    return [('SAVESTATE', [rng.choice([1, 200])], b''), ('TIMER', [], b'')]
+                def maybe_dump(p=0.4): return [D] if rng.random() < p else []
+                if rng.random() < 0.3: evs += save_state() + maybe_dump(); tags.append('resave:healthy-first')
+                which = rng.choice(['state', 'state', 'state', 'cfg', 'both'])
+                k = rng.choice([1, 2]); code = rng.choice([1, 2]); tags.append('resave:%s-fail-op%d' % (which, k))
+                if which in ('state', 'both'):
+                    evs += [('FAIL', [k, code], b'')] + save_state() + maybe_dump()
+                if which in ('cfg', 'both'):
+                    evs += [('FAIL', [rng.choice([1, 2]), rng.choice([1, 2])], b''), ('SAVECFG', [], b'')] + maybe_dump()
+                for _ in range(rng.randrange(0, 3)):                                  # healthy saves of other things in between
+                    if rng.random() < 0.5: evs += [('SAVECFG', [], b'')] + maybe_dump(0.2)
+                    else: evs += [('SETCFG', [], img_v7(rng)), ('SAVECFG', [], b'')]
+                for _ in range(rng.randrange(1, 3)):                                  # the same records again, flash healthy
+                    if which in ('state', 'both') or rng.random() < 0.5: evs += save_state()
+                    if which in ('cfg', 'both') or rng.random() < 0.3: evs += [('SAVECFG', [], b'')]
+                evs += maybe_dump(0.5) + boot()
         elif sc == 'migrate':
             lay = rng.choice(['6', '6', 'A', 'B']); idm = rng.choice(['ok'] * 6 + ['zg', 'zk', 'zz'])
             img = img_v6(rng, idm) if lay == '6' else img_v5(rng, lay, idm)
@@ -334,6 +360,7 @@ class C13(F.PropCheck):
         saved = {}                                # kind 'cfg'|'state' -> (record, reported_ok, prev_flash) awaiting a DUMP
         booted = None                             # (classification of flashc before boot, flashc, flashs, ret) awaiting a DUMP
         ident = None                              # (GUID, AuthKey) before a factory reset, awaiting a DUMP
+        expect_sta = None                         # state record of the last state save that was not reported failed (sector not touched since)
         powered = True
         def ops(seg):
             """per FLASH line: 'ok' | 'fail' | 'crash' according to the script"""
@@ -360,7 +387,7 @@ class C13(F.PropCheck):
             if k == 'FLASHIMG':
                 img = (bytes(e[2]) + b'\xff' * l['SEC_SIZE'])[:l['SEC_SIZE']]
                 if e[1][0] == 0: flashc = img[:l['CFG_SIZE']]
-                else: flashs = img[:l['STATE_SIZE']]
+                else: flashs = img[:l['STATE_SIZE']]; expect_sta = None
                 saved.pop('cfg' if e[1][0] == 0 else 'state', None); continue
             if k == 'DUMP':
                 d = {o[0]: bytes(o[2]) for o in seg}
@@ -370,7 +397,8 @@ class C13(F.PropCheck):
                     if cur is None: continue
                     if ok and cur != rec:
                         j = next(j for j in range(len(rec)) if cur[j] != rec[j])
-                        v.append('%s save reported success but the sector does not hold the saved record (first difference at offset %d)' % (kind, j))
+                        v.append('%s save %s but the sector does not hold the saved record (first difference at offset %d)' %
+                                 (kind, 'reported success' if kind == 'cfg' else 'was not reported failed (no flash operation of it failed)', j))
                     elif not ok and prev is not None and cur not in (prev, b'\xff' * len(rec), rec):
                         v.append('after a failed/interrupted %s save the sector is neither the old record, nor erased, nor the new record' % kind)
                 saved = {}
@@ -382,9 +410,14 @@ class C13(F.PropCheck):
                                 j = next(j for j in range(len(c)) if c[j] != cls[1][j]); v.append('configuration loaded after restart differs from the stored one at offset %d' % j)
                             elif fs0 is not None and any(b != 255 for b in fs0) and d.get('STATE') != fs0:
                                 v.append('state loaded after restart differs from the stored one')
+                            elif ret[1] is not None and d.get('STATE') != ret[1]:
+                                v.append('state loaded after restart differs from the state the device saved last (that save was not reported failed)')
                         elif cls[0] == 'reject':
                             why = looks_fresh(c, cls[1])
                             if why: v.append('blank/foreign/zero-identity sector was not replaced by defaults with a new identity: ' + why)
+                        elif cls[0] == 'exact-unknown':
+                            if ret[0] == 1 and valid7(c) and ret[1] is not None and d.get('STATE') != ret[1]:
+                                v.append('state loaded after restart differs from the state the device saved last (that save was not reported failed)')
                         elif cls[0] == 'keep':
                             for (off, n, exp) in cls[1]:
                                 if sl(c, off, n) != exp: v.append('migration lost the field at offset %d of the new record' % off); break
@@ -401,8 +434,11 @@ class C13(F.PropCheck):
                 r = ops(seg); powered = not crashed
                 booted = None; saved = {}; ident = None; ram_cfg = None; ram_sta = None
                 if not crashed and flashc is not None and last[0] == 'R':
-                    booted = (classify(flashc), flashc, flashs, last[1][0])
-                flashc = None; flashs = None
+                    booted = (classify(flashc), flashc, flashs, (last[1][0], expect_sta))
+                elif not crashed and last[0] == 'R' and expect_sta is not None and r == []:
+                    # sector contents not dumped before the boot; the boot itself wrote nothing => an accepted record was loaded
+                    booted = (('exact-unknown',), None, None, (last[1][0], expect_sta))
+                flashc = None; flashs = None; expect_sta = None
                 continue
             if last[0] == 'R' and last[1] and last[1][0] == -1: continue      # not powered
             if k == 'SETCFG': ram_cfg = (bytes(e[2]) + bytes(l['CFG_SIZE']))[:l['CFG_SIZE']]; booted = None; ident = None; continue
@@ -414,14 +450,21 @@ class C13(F.PropCheck):
                 if ram_cfg is not None: saved['cfg'] = (ram_cfg, ok, flashc)
                 flashc = None
             elif k in ('SAVESTATE', 'TIMER'):
-                if r:
-                    ok = len(r) == 2 and all(x[2] == 'ok' for x in r)
+                # the state save ran in this event (immediately, or the delayed one fired); it has no return value: it counts as
+                # failed only when one of its flash operations failed or power was lost - also when it issued no operation at all
+                invoked = (k == 'SAVESTATE' and e[1][0] <= 0) or (k == 'TIMER' and last[0] == 'R' and last[1][0] == 1) or bool(r)
+                if invoked:
+                    ok = (not crashed) and all(x[2] == 'ok' for x in r)
+                    prev = saved.get('state')
                     saved.pop('state', None)
-                    if ram_sta is not None: saved['state'] = (ram_sta, ok, flashs)
-                    flashs = None
+                    if ram_sta is not None:
+                        # no operation issued: the sector is still what it was before (keep an earlier pending 'old sector' value)
+                        saved['state'] = (ram_sta, ok, flashs if (r or prev is None) else prev[2])
+                    expect_sta = ram_sta if ok else None
+                    if r: flashs = None
             elif k == 'FACTORY':
                 if ram_cfg is not None: ident = (sl(ram_cfg, l['O7_GUID'], l['GUID_SIZE']), sl(ram_cfg, l['O7_AUTHKEY'], l['AUTHKEY_SIZE']))
-                ram_cfg = None; ram_sta = None; saved = {}; booted = None
+                ram_cfg = None; ram_sta = None; saved = {}; booted = None; expect_sta = None
                 if r: flashc = None; flashs = None
             elif k == 'POST':
                 sub = [o for o in seg if o[0] == 'SUBMIT']; after = [o for o in seg if o[0] == 'CFG']; sr = [o for o in seg if o[0] == 'SAVERET']
